@@ -67,7 +67,7 @@ template <class S> static void explore(const std::string& sol, const std::vector
   for (int j = 0; j < ncoord; j++) for (LD f : {2.0L, 0.5L}) moves.push_back({1, j, f});
   std::vector<Elem> targets; targets.push_back(Elem());
   for (auto& m : moves) { Elem e; e.mv = {m}; targets.push_back(e); }
-  bool allpairs = tier ? n <= 64 : n <= 16;
+  bool allpairs = tier ? n <= 64 : n <= 32;
   for (size_t a = 0; a < moves.size(); a++) for (size_t b = a + 1; b < moves.size(); b++) {
     if (moves[a].kind == moves[b].kind && moves[a].idx == moves[b].idx) continue;
     bool pc = a < nparam_moves && b >= nparam_moves;  // (parameter move, coordinate move): the collision pairs, always explored
